@@ -86,6 +86,10 @@ class ListModel(object):
     def sort_fields(self):
         self.items.sort(key=lambda e: e[0].lower())
 
+    def sort_by(self, keyfn):
+        """sort_fields(key=f): Python's sort is stable, so entries whose keys tie keep their current order"""
+        self.items.sort(key=lambda e: keyfn(e[0]))
+
     # ---- whole-object operations
     def copy(self):
         return ListModel([(s, v) for s, v in self.items])
